@@ -1,3 +1,19 @@
-import GffProofs.Lemmas.SplitJoin
-open GffProofs
-#print axioms split_join
+import GffProofs.Props.C03
+open GffProofs.C03
+#print axioms gtf_relations_exact
+#print axioms key_shape
+#print axioms keyed_spec
+#print axioms GffProofs.C03.GtfOk.keysNodup
+#print axioms autoId_inj
+#print axioms relSpec_irrefl
+#print axioms relSpec_level1
+#print axioms relSpec_level2
+#print axioms relSpec_levels
+#print axioms gtf_import_exact
+#print axioms transcript_extent
+#print axioms gene_extent
+#print axioms disable_flags
+#print axioms every_line_single
+#print axioms explicit_lines_single
+#print axioms relation_queries_exact
+#print axioms noSuffixed_needed
